@@ -10,7 +10,43 @@
 //   S seed feat nbody integrator autoreset where idx bits nsteps
 //        where 0 qpos 1 qvel 2 qfrc_applied 3 xfrc_applied 4 ctrl 5 act 6 nothing
 //        -> err allfinite time_bits h_bits n (number lastinfo)*7 nidx
+//   Z ntree mask shape kind autoreset pre_n pre_l ninj (idx bits)*
+//        as C but on a SLEEP model (mjENBL_SLEEP, ntree kinematic trees far apart, tree t initialised asleep iff
+//        bit t of mask; shape bit t: 0 free body, 1 slide+hinge chain) after two warm-up steps
+//        -> n v0..vn-1 ; nind i0.. (loop order of the check: dof_awake_ind, or 0..n-1) | number lastinfo | bystander | class
+//   T ntree mask shape integrator autoreset where k bits nsteps
+//        mj_step on the sleep model with a value injected at the k-th AWAKE dof (where 0 qpos of its joint, 1 qvel,
+//        2 qfrc_applied, 3 xfrc_applied of its body) -> like S, followed by nv nv_awake dof
 #include "mjgen.h"
+
+static mjModel* SM = NULL; static int sm_n = -1, sm_mask = -1, sm_shape = -1;
+static mjModel* sleep_model(int ntree, int mask, int shape) {
+  if (SM && sm_n == ntree && sm_mask == mask && sm_shape == shape) return SM;
+  if (SM) mj_deleteModel(SM);
+  mjSpec* s = mj_makeSpec();
+  s->option.enableflags |= mjENBL_SLEEP;
+  mjsBody* world = mjs_findBody(s, "world");
+  for (int t = 0; t < ntree; t++) {
+    mjsBody* body = mjs_addBody(world, NULL);
+    body->pos[0] = 10.0 * t; body->pos[2] = 5.0;
+    if (mask & (1 << t)) body->sleep = mjSLEEP_INIT;
+    if (shape & (1 << t)) {
+      mjsJoint* j1 = mjs_addJoint(body, NULL); j1->type = mjJNT_SLIDE; j1->axis[0] = 1; j1->axis[1] = 0; j1->axis[2] = 0;
+      mjsJoint* j2 = mjs_addJoint(body, NULL); j2->type = mjJNT_HINGE; j2->axis[0] = 0; j2->axis[1] = 1; j2->axis[2] = 0;
+      mjsBody* child = mjs_addBody(body, NULL); child->pos[0] = 0.3;
+      mjsJoint* j3 = mjs_addJoint(child, NULL); j3->type = mjJNT_BALL;
+      mjsGeom* g2 = mjs_addGeom(child, NULL); g2->type = mjGEOM_CAPSULE; g2->size[0] = 0.05; g2->size[1] = 0.15;
+    } else {
+      mjs_addFreeJoint(body);
+    }
+    mjsGeom* g = mjs_addGeom(body, NULL); g->type = mjGEOM_SPHERE; g->size[0] = 0.1;
+  }
+  SM = mj_compile(s, NULL);
+  if (!SM) fprintf(stderr, "sleep model: %s\n", mjs_getError(s));
+  mj_deleteSpec(s);
+  sm_n = ntree; sm_mask = mask; sm_shape = shape;
+  return SM;
+}
 
 static mjModel* M = NULL; static unsigned long long cs = 0; static unsigned cf = 0; static int cn = -1;
 static mjModel* get_model(unsigned long long seed, unsigned feat, int nbody) {
@@ -101,6 +137,73 @@ int main(void) {
       printf("%d %d %016llx %016llx %d", err, fin, to_bits(d->time), to_bits(m->opt.timestep), n);
       for (int k = 0; k < mjNWARNING; k++) printf(" %d %d", d->warning[k].number, d->warning[k].lastinfo);
       printf(" %d\n", nidx);
+      mj_deleteData(d);
+    } else if (op == 'Z') {
+      int ntree = (int)strtol(p, &p, 10), mask = (int)strtol(p, &p, 10), shape = (int)strtol(p, &p, 10);
+      int kind = (int)strtol(p, &p, 10), autoreset = (int)strtol(p, &p, 10);
+      int pre_n = (int)strtol(p, &p, 10), pre_l = (int)strtol(p, &p, 10), ninj = (int)strtol(p, &p, 10);
+      mjModel* m = sleep_model(ntree, mask, shape);
+      if (!m) { printf("ERR compile\n"); fflush(stdout); continue; }
+      mjData* d = mj_makeData(m); mjData* snap = mj_makeData(m); mjData* ref = mj_makeData(m);
+      m->opt.disableflags &= ~mjDSBL_AUTORESET;
+      mj_step(m, d); mj_step(m, d); d->time = 1.0;
+      mj_forward(m, d);
+      int w = kind == 0 ? mjWARN_BADQPOS : kind == 1 ? mjWARN_BADQVEL : mjWARN_BADQACC;
+      for (int k = 0; k < mjNWARNING; k++) { d->warning[k].number = 0; d->warning[k].lastinfo = 0; }
+      d->warning[w].number = pre_n; d->warning[w].lastinfo = pre_l;
+      d->warning[mjWARN_INERTIA].number = 3; d->warning[mjWARN_INERTIA].lastinfo = 7;
+      mjtNum* vec = kind == 0 ? d->qpos : kind == 1 ? d->qvel : d->qacc; int n = kind == 0 ? m->nq : m->nv;
+      for (int k = 0; k < ninj; k++) { int idx = (int)strtol(p, &p, 10); unsigned long long b = strtoull(p, &p, 16); if (n) vec[((idx % n) + n) % n] = from_bits(b); }
+      mj_copyData(snap, m, d);
+      printf("%d", n); for (int i = 0; i < n; i++) printf(" %016llx", to_bits(vec[i]));
+      int filt = kind != 0 && d->nv_awake < m->nv;
+      int nind = filt ? d->nv_awake : n;
+      printf(" ; %d", nind); for (int j = 0; j < nind; j++) printf(" %d", filt ? d->dof_awake_ind[j] : j);
+      if (!autoreset) m->opt.disableflags |= mjDSBL_AUTORESET;
+      int err = 0;
+      if (MJG_TRY) { if (kind == 0) mj_checkPos(m, d); else if (kind == 1) mj_checkVel(m, d); else mj_checkAcc(m, d); MJG_END; } else err = 1;
+      m->opt.disableflags &= ~mjDSBL_AUTORESET;
+      if (kind == 2) mj_forward(m, ref);
+      int others_zero = 1, others_same = 1;
+      for (int k = 0; k < mjNWARNING; k++) if (k != w) {
+        if (d->warning[k].number || d->warning[k].lastinfo) others_zero = 0;
+        if (d->warning[k].number != snap->warning[k].number || d->warning[k].lastinfo != snap->warning[k].lastinfo) others_same = 0;
+      }
+      char cls = 'X';
+      if (same_state(m, d, snap, 1) && others_same) cls = 'U';
+      else if (same_state(m, d, ref, kind == 2) && others_zero) cls = 'R';
+      printf(" | %d %d | %d %d | %c%s\n", d->warning[w].number, d->warning[w].lastinfo,
+             d->warning[mjWARN_INERTIA].number, d->warning[mjWARN_INERTIA].lastinfo, cls, err ? " ERR" : "");
+      mj_deleteData(d); mj_deleteData(snap); mj_deleteData(ref);
+    } else if (op == 'T') {
+      int ntree = (int)strtol(p, &p, 10), mask = (int)strtol(p, &p, 10), shape = (int)strtol(p, &p, 10);
+      int integ = (int)strtol(p, &p, 10), autoreset = (int)strtol(p, &p, 10), where = (int)strtol(p, &p, 10), kk = (int)strtol(p, &p, 10);
+      unsigned long long b = strtoull(p, &p, 16); int nsteps = (int)strtol(p, &p, 10);
+      mjModel* m = sleep_model(ntree, mask, shape);
+      if (!m) { printf("ERR compile\n"); fflush(stdout); continue; }
+      mjData* d = mj_makeData(m);
+      int saved_int = m->opt.integrator; m->opt.integrator = integ;
+      m->opt.disableflags &= ~mjDSBL_AUTORESET;
+      mj_step(m, d); mj_step(m, d); d->time = 1.0;
+      if (!autoreset) m->opt.disableflags |= mjDSBL_AUTORESET;
+      int nva = d->nv_awake, dof = -1, n = 0, nidx = -1;
+      if (nva > 0 && where <= 3) {
+        dof = nva < m->nv ? d->dof_awake_ind[((kk % nva) + nva) % nva] : ((kk % m->nv) + m->nv) % m->nv;
+        n = 1;
+        if (where == 0) { nidx = m->jnt_qposadr[m->dof_jntid[dof]]; d->qpos[nidx] = from_bits(b); }
+        else if (where == 1) { nidx = dof; d->qvel[dof] = from_bits(b); }
+        else if (where == 2) { nidx = dof; d->qfrc_applied[dof] = from_bits(b); }
+        else { nidx = 6 * m->dof_bodyid[dof] + (((kk % 6) + 6) % 6); d->xfrc_applied[nidx] = from_bits(b); }
+      }
+      int err = 0;
+      if (MJG_TRY) { for (int s2 = 0; s2 < nsteps; s2++) mj_step(m, d); MJG_END; } else err = 1;
+      m->opt.integrator = saved_int; m->opt.disableflags &= ~mjDSBL_AUTORESET;
+      int fin = isfinite(d->time) ? 1 : 0;
+      for (int i = 0; i < m->nq; i++) if (!isfinite(d->qpos[i])) fin = 0;
+      for (int i = 0; i < m->nv; i++) if (!isfinite(d->qvel[i])) fin = 0;
+      printf("%d %d %016llx %016llx %d", err, fin, to_bits(d->time), to_bits(m->opt.timestep), n);
+      for (int k = 0; k < mjNWARNING; k++) printf(" %d %d", d->warning[k].number, d->warning[k].lastinfo);
+      printf(" %d %d %d %d\n", nidx, m->nv, nva, dof);
       mj_deleteData(d);
     } else {
       printf("ERR op\n");
